@@ -118,6 +118,11 @@ func DriveRaft(t *rapid.T, d RaftDriveOpts) (*RaftRun, string) {
 	// partitions: every so many attempts a new set of cut-off servers is drawn (their traffic waits)
 	partitionEvery := rapid.SampledFrom([]int{0, 0, 150, 400}).Draw(t, "partition-every")
 	nextPartition := partitionEvery
+	// nemesis: a leader that has just appended an entry is cut off (with this probability) for a drawn number of
+	// attempts, so that entries stay unreplicated on deposed leaders — the situations log repair and the commit rule exist for
+	nemesisPct := rapid.SampledFrom([]int{0, 0, 25, 60}).Draw(t, "cut-off-leader-on-append")
+	healAt := -1
+	logLen := make([]int, n+1)
 	var all []*sched.Instance
 	for _, g := range r.Servers {
 		all = append(all, g...)
@@ -143,7 +148,12 @@ func DriveRaft(t *rapid.T, d RaftDriveOpts) (*RaftRun, string) {
 				r.FDKnows[s] = true
 			}
 		}
-		if partitionEvery > 0 && step >= nextPartition {
+		if healAt >= 0 && step >= healAt {
+			healAt = -1
+			r.Isolate(map[int]bool{})
+			fmt.Fprintf(&run.Hist, "-- network healed at step %d\n", step)
+		}
+		if partitionEvery > 0 && step >= nextPartition && healAt < 0 {
 			nextPartition = step + partitionEvery
 			iso := map[int]bool{}
 			if rapid.IntRange(0, 3).Draw(t, "partition-on") > 0 {
@@ -200,6 +210,17 @@ func DriveRaft(t *rapid.T, d RaftDriveOpts) (*RaftRun, string) {
 			case sched.Committed:
 				run.Commits++
 				fmt.Fprintf(&run.Hist, "%d: %s commits %s\n", step-1, in.Name, short(st.PC))
+				if node := r.NodeOf(in); nemesisPct > 0 && node <= n {
+					l := r.Shadow[node-1]["log"].AsTuple().Len()
+					if l > logLen[node] && r.Shadow[node-1]["state"].AsString() == "leader" && n > 1 && healAt < 0 &&
+						rapid.IntRange(0, 99).Draw(t, "cut-off-now") < nemesisPct {
+						r.Isolate(map[int]bool{node: true})
+						healAt = step + rapid.SampledFrom([]int{40, 120, 300}).Draw(t, "cut-off-for")
+						nextPartition = healAt + partitionEvery
+						fmt.Fprintf(&run.Hist, "-- leader %d is cut off after appending entry %d (until step %d)\n", node, l, healAt)
+					}
+					logLen[node] = l
+				}
 				if st.Err != nil {
 					return run, fmt.Sprintf("%s ended with an error: %v", in.Name, st.Err)
 				}
